@@ -28,6 +28,7 @@ VARIANTS = {
     "ES-v1": dict(family="ES", serial=b"95048ESU000W0000", firmware=b"02047"),
     "ES-v2": dict(family="ES", serial=b"95048ESU000W0000", firmware=b"2214E"),
     "DT": dict(family="DT", serial=b"9010KDTU000W0000", refuse=[], tcp=True),
+    "DT-single": dict(family="DT", serial=b"9010KDSN000W0000", refuse=[]),
 }
 V2 = ("ET-v2", "ET-745", "ET-v2-tcp", "ES-v2")
 GROUP_CONTENT = ("off", "window", "fulltime-charge", "peak", "unset", "garbage")
